@@ -404,7 +404,7 @@ func c14SplitScenario(server string, nw, nr int) explore.Scenario {
 	}
 }
 
-func c14Scenario(server string, nw, nr int, twoHandles bool, alloc bool, mid bool, ro bool, end string, sameID bool) explore.Scenario {
+func c14Scenario(server string, nw, nr int, twoHandles bool, alloc bool, mid bool, ro bool, end string, sameID bool, failW bool) explore.Scenario {
 	return func() (func(), func(*vsched.Exec) explore.Verdict) {
 		const init = "ABCDEFGHIJKLMNOP"
 		spec := &srvSpec{server: server, alloc: alloc, split: true, hangup: -1, files: map[string]string{"/f": init, "/g": init}}
@@ -416,6 +416,12 @@ func c14Scenario(server string, nw, nr int, twoHandles bool, alloc bool, mid boo
 				return n
 			}
 			return "/" + n
+		}
+		if failW {
+			// request server whose handlers are a plain FileWriter; the store refuses the write at offset 2 (the second of the burst):
+			// the other writes sent before the CLOSE are carried out all the same, and the handle stays open until its CLOSE
+			spec.putOnly = true
+			spec.failAt = map[string]int64{name("f"): 2}
 		}
 		spec.replyFail, spec.appClose = end == "replyfail", end == "appclose"
 		pf := uint32(sshFxfRead | sshFxfWrite)
@@ -451,6 +457,9 @@ func c14Scenario(server string, nw, nr int, twoHandles bool, alloc bool, mid boo
 					}
 				}
 			}
+		}
+		if failW {
+			copy(want["f"][2:], init[2:4]) // the refused write leaves its bytes as they were
 		}
 		for i := 0; i < nr; i++ {
 			for _, h := range handles {
@@ -534,6 +543,14 @@ func c14Scenario(server string, nw, nr int, twoHandles bool, alloc bool, mid boo
 				return v
 			}
 			for i, f := range r.frames {
+				if failW && r.reqTypes[i] == sshFxpWrite && i == 3 { // INIT, OPEN, write@0, write@2: the refused one
+					if c, ok := f.statusCode(); !ok || c == sshFxOk {
+						v.Bad = fmt.Sprintf("the write the store refused was answered %s: %v", f, st)
+						v.Key = "c14-refused-write-ok"
+						return v
+					}
+					continue
+				}
 				if c, ok := f.statusCode(); ok && c != sshFxOk {
 					v.Bad = fmt.Sprintf("pipelined %s#%d before close was answered %s: %v", fxp(r.reqTypes[i]), f.id, fx(c), st)
 					v.Key = fmt.Sprintf("c14-status-%s", fxp(r.reqTypes[i]))
@@ -586,7 +603,7 @@ func atoiDef(s string, d int) int {
 
 func init() {
 	reg.Part("C14/sched", func(c *reg.Ctx) *reg.Result {
-		sc := c14Scenario(c.Arg("server", "rs"), c.ArgInt("nw", 2), c.ArgInt("nr", 1), c.Arg("two", "0") == "1", c.Arg("alloc", "0") == "1", c.Arg("mid", "0") == "1", c.Arg("ro", "0") == "1", c.Arg("end", ""), c.Arg("sameid", "0") == "1")
+		sc := c14Scenario(c.Arg("server", "rs"), c.ArgInt("nw", 2), c.ArgInt("nr", 1), c.Arg("two", "0") == "1", c.Arg("alloc", "0") == "1", c.Arg("mid", "0") == "1", c.Arg("ro", "0") == "1", c.Arg("end", ""), c.Arg("sameid", "0") == "1", c.Arg("failw", "0") == "1")
 		if c.Arg("splitmode", "0") == "1" {
 			sc = c14SplitScenario(c.Arg("server", "rs"), c.ArgInt("nw", 2), c.ArgInt("nr", 2))
 		}
@@ -635,6 +652,11 @@ func c14Jobs(tier string) []reg.Job {
 						return x
 					}(),
 					func() reg.Job {
+						x := j("rs (FileWriter-only handlers) W=2 3w of which the store refuses the second, close db4", "instr-w2", "rs", 3, 0, false, 4, 600)
+						x.Args["failw"] = "1"
+						return x
+					}(),
+					func() reg.Job {
 						x := j("os W=2 3w, close, every request with the same id db3", "instr-w2", "os", 3, 0, false, 3, 600)
 						x.Args["sameid"] = "1"
 						return x
@@ -677,6 +699,11 @@ func c14Jobs(tier string) []reg.Job {
 					// a peer that does not number its requests: the server must not rely on request ids to tell requests apart
 					x := j("rs W=2 3w, close, every request with the same id db3", "instr-w2", "rs", 3, 0, false, 3, 100)
 					x.Args["sameid"] = "1"
+					return x
+				}(),
+				func() reg.Job {
+					x := j("rs (FileWriter-only handlers) W=2 3w of which the store refuses the second, close db3", "instr-w2", "rs", 3, 0, false, 3, 100)
+					x.Args["failw"] = "1"
 					return x
 				}(),
 				func() reg.Job {
